@@ -924,3 +924,751 @@ Lemma backoff_sequence_wf t0 h host nm ch t1 j :
 Proof.
   intros it W. apply backoff_sequence_model. eapply wf_hist_in_range. exact W.
 Qed.
+
+(* ================================================================== C13: channels *)
+Lemma events_on_app ch a b : events_on ch (a ++ b) = events_on ch a ++ events_on ch b.
+Proof. apply flat_map_app. Qed.
+
+Lemma events_on_closed ch (l : list chan) : events_on ch (map (fun c => (c, EClosed)) l) = [].
+Proof. induction l as [|c l IH]; simpl; [reflexivity|]. destruct (c =? ch); exact IH. Qed.
+
+Lemma events_on_other ch evs : (forall ce, In ce evs -> fst ce <> ch) -> events_on ch evs = [].
+Proof.
+  induction evs as [|[c e] evs IH]; intros H; [reflexivity|].
+  simpl. destruct (c =? ch) eqn:E.
+  - apply N.eqb_eq in E. exfalso. apply (H (c, e)); [left; reflexivity | exact E].
+  - apply IH. intros x Hx. apply H. right. exact Hx.
+Qed.
+
+Lemma ev_eqb_refl e : ev_eqb e e = true.
+Proof. destruct e; simpl; try apply beq_refl; reflexivity. Qed.
+
+Lemma evs_eqb_refl l : evs_eqb l l = true.
+Proof. induction l as [|e l IH]; simpl; [reflexivity|]. rewrite ev_eqb_refl, IH. reflexivity. Qed.
+
+Lemma flat_map_nil {A B} (f : A -> list B) l : (forall x, In x l -> f x = []) -> flat_map f l = [].
+Proof.
+  induction l as [|x l IH]; intros H; simpl; [reflexivity|].
+  rewrite (H x (or_introl eq_refl)). apply IH. intros y Hy. apply H. right. exact Hy.
+Qed.
+
+(* a list with distinct keys in which only the entry e0 can satisfy Q *)
+Lemma flat_map_unique {B} (Q : okey * owner -> bool) (g : okey * owner -> list B) l e0 :
+  NoDup (map fst l) -> In e0 l -> (forall e, In e l -> Q e = true -> fst e = fst e0) ->
+  flat_map (fun e => if Q e then g e else []) l = if Q e0 then g e0 else [].
+Proof.
+  induction l as [|x l IH]; intros ND Hin HQ; [contradiction|].
+  inversion ND as [|y ys Hn ND']; subst. simpl. destruct Hin as [->|Hin].
+  - rewrite flat_map_nil; [apply app_nil_r|].
+    intros e He. destruct (Q e) eqn:E; [|reflexivity]. exfalso. apply Hn.
+    rewrite <- (HQ e (or_intror He) E). apply in_map. exact He.
+  - replace (Q x) with false.
+    + simpl. apply IH; [exact ND' | exact Hin|]. intros e He. apply HQ. right. exact He.
+    + symmetry. destruct (Q x) eqn:E; [|reflexivity]. exfalso. apply Hn.
+      rewrite (HQ x (or_introl eq_refl) E). apply in_map. exact Hin.
+Qed.
+
+Lemma events_on_timeouts ch now owners :
+  events_on ch (timeout_events now owners)
+  = flat_map (fun e : okey * owner => if (ow_ch (snd e) =? ch) && expired now e
+                       then [ETimeout (snd (fst e)); EStopped (snd (fst e))] else []) owners.
+Proof.
+  unfold timeout_events. induction owners as [|e l IH]; simpl; [reflexivity|].
+  rewrite events_on_app, IH. f_equal.
+  destruct (expired now e); simpl; [|rewrite andb_false_r; reflexivity].
+  rewrite andb_true_r. destruct (ow_ch (snd e) =? ch); reflexivity.
+Qed.
+
+Lemma events_on_shutdown ch owners :
+  events_on ch (map (fun e : okey * owner => (ow_ch (snd e), EStopped (snd (fst e)))) owners)
+  = flat_map (fun e : okey * owner => if ow_ch (snd e) =? ch then [EStopped (snd (fst e))] else []) owners.
+Proof.
+  induction owners as [|e l IH]; simpl; [reflexivity|]. rewrite IH.
+  destruct (ow_ch (snd e) =? ch); reflexivity.
+Qed.
+
+Lemma events_on_reruns ch (l : list rerun) :
+  events_on ch (map (fun r => (r_ch r, EStarted (r_name r))) l)
+  = map (fun r => EStarted (r_name r)) (filter (fun r => r_ch r =? ch) l).
+Proof.
+  induction l as [|r l IH]; simpl; [reflexivity|]. rewrite IH. destruct (r_ch r =? ch); reflexivity.
+Qed.
+
+Lemma filter_at_most_one {A B} (f : A -> B) (Q : A -> bool) (a : B) l :
+  NoDup (map f l) -> (forall x, In x l -> Q x = true -> f x = a) ->
+  filter Q l = [] \/ exists x, filter Q l = [x].
+Proof.
+  induction l as [|x l IH]; intros ND H; simpl; [left; reflexivity|].
+  inversion ND as [|y ys Hn ND']; subst.
+  destruct (Q x) eqn:E.
+  - right. exists x. f_equal. apply filter_nil_iff. intros z Hz.
+    destruct (Q z) eqn:Ez; [|reflexivity]. exfalso. apply Hn.
+    rewrite (H x (or_introl eq_refl) E), <- (H z (or_intror Hz) Ez). apply in_map. exact Hz.
+  - apply IH; [exact ND'|]. intros z Hz. apply H. right. exact Hz.
+Qed.
+
+(* ------------------------------------------------------------------ per-channel relation *)
+Definition Rc (ch : chan) (s : state) (cs : cstate) : Prop :=
+  match cs with
+  | CCurrent k nm cache dd =>
+      lookup k (st_owners s) = Some (mkOwner ch dd)
+      /\ (forall e, In e (st_owners s) -> ow_ch (snd e) = ch -> fst e = k)
+      /\ (forall r, In r (st_retrans s) -> r_ch r = ch -> rkey r = k /\ r_name r = nm /\ cache = false)
+  | _ => ~ In ch (refs s)
+  end.
+
+Lemma not_in_refs ch s :
+  ~ In ch (refs s) <->
+  (forall e, In e (st_owners s) -> ow_ch (snd e) <> ch) /\ (forall r, In r (st_retrans s) -> r_ch r <> ch).
+Proof.
+  unfold refs. split.
+  - intros H. split.
+    + intros e He E. apply H. apply in_or_app. left. apply in_map_iff. exists e. auto.
+    + intros r Hr E. apply H. apply in_or_app. right. apply in_map_iff. exists r. auto.
+  - intros [H1 H2] H. apply in_app_or in H as [H|H]; apply in_map_iff in H as [x [E Hx]].
+    + exact (H1 x Hx E).
+    + exact (H2 x Hx E).
+Qed.
+
+Lemma owner_entry_unique k o (l : list (okey * owner)) e :
+  NoDup (map fst l) -> lookup k l = Some o -> In e l -> fst e = k -> e = (k, o).
+Proof.
+  intros ND L He Ek. destruct e as [k' o']. simpl in Ek. subst k'.
+  rewrite (In_lookup k o' l ND He) in L. congruence.
+Qed.
+
+Lemma rc_timeout ch now s cs :
+  Rc ch s cs -> NoDup (map fst (st_owners s)) -> hazard now (st_owners s) (st_retrans s) = false ->
+  Rc ch (timeout_phase now s) (fst (c_timeout now cs))
+  /\ events_on ch (timeout_events now (st_owners s)) = snd (c_timeout now cs).
+Proof.
+  intros R ND Hz. rewrite events_on_timeouts.
+  assert (Hother : ~ In ch (refs s) ->
+     ~ In ch (refs (timeout_phase now s))
+     /\ flat_map (fun e : okey * owner => if (ow_ch (snd e) =? ch) && expired now e
+                          then [ETimeout (snd (fst e)); EStopped (snd (fst e))] else []) (st_owners s) = []).
+  { intros Hn. apply not_in_refs in Hn as [N1 N2]. split.
+    - apply not_in_refs. simpl. split; [|exact N2]. intros e He. apply filter_In in He as [He _]. auto.
+    - apply flat_map_nil. intros e He. replace (ow_ch (snd e) =? ch) with false; [reflexivity|].
+      symmetry. apply N.eqb_neq. auto. }
+  destruct cs as [|k nm cache dd|]; try (simpl; apply Hother; exact R).
+  destruct R as [L [C2 C3]].
+  set (e0 := (k, mkOwner ch dd)).
+  assert (He0 : In e0 (st_owners s)) by (apply lookup_In; exact L).
+  rewrite (flat_map_unique _ _ (st_owners s) e0 ND He0).
+  2:{ intros e He Q. apply andb_true_iff in Q as [Q _]. apply N.eqb_eq in Q. simpl. auto. }
+  simpl. rewrite N.eqb_refl. simpl. unfold expired. simpl.
+  destruct dd as [d|]; simpl.
+  - rewrite resolver_expired_pinned. destruct (d <=? now) eqn:E; simpl.
+    + split; [|reflexivity]. apply not_in_refs. simpl. split.
+      * intros e He Ech. apply filter_In in He as [He Hne].
+        pose proof (owner_entry_unique k _ _ e ND L He (C2 e He Ech)) as ->.
+        unfold expired in Hne. simpl in Hne. rewrite resolver_expired_pinned, E in Hne. discriminate.
+      * intros r Hr Ech. destruct (C3 r Hr Ech) as [Hk _].
+        apply (hazard_false now _ _ e0 r Hz He0); [|exact Hr | exact Hk].
+        unfold expired. simpl. rewrite resolver_expired_pinned. exact E.
+    + split; [|reflexivity]. split; [|split].
+      * apply lookup_filter_keep; [exact L|]. unfold expired. simpl. rewrite resolver_expired_pinned, E. reflexivity.
+      * intros e He. apply filter_In in He as [He _]. auto.
+      * exact C3.
+  - split; [|reflexivity]. split; [|split].
+    + apply lookup_filter_keep; [exact L | reflexivity].
+    + intros e He. apply filter_In in He as [He _]. auto.
+    + exact C3.
+Qed.
+
+Lemma rc_start ch now s cs host nm cache timeout ch' :
+  Rc ch s cs -> (ch' = ch -> cs = CNotYet) ->
+  Rc ch (fst (fst (exec_start now host nm cache timeout ch' s)))
+        (fst (c_cmd now ch (CStart host nm cache timeout ch') cs))
+  /\ events_on ch (snd (exec_start now host nm cache timeout ch' s))
+     = snd (c_cmd now ch (CStart host nm cache timeout ch') cs).
+Proof.
+  intros R F. unfold exec_start, c_cmd.
+  set (key := okey_of host nm). set (dl := option_map (sat_add now) timeout).
+  set (owners' := (key, mkOwner ch' dl) :: remove_key key (st_owners s)).
+  set (new := requeue now owners' host nm (first_delay host cache) ch').
+  assert (Hnew : forall r, In r new -> rkey r = key /\ r_name r = nm /\ r_ch r = ch').
+  { intros r Hr. unfold new in Hr. apply in_requeue in Hr as [-> _]. auto. }
+  destruct (ch' =? ch) eqn:Ech.
+  - apply N.eqb_eq in Ech. subst ch'. rewrite (F eq_refl) in *. simpl in R.
+    apply not_in_refs in R as [N1 N2].
+    assert (Hown : forall e, In e owners' -> ow_ch (snd e) = ch -> fst e = key).
+    { intros e [<-|He] Ee; [reflexivity|]. apply in_remove_key in He as [He _]. exfalso. exact (N1 e He Ee). }
+    destruct cache; sstep.
+    + split.
+      * split; [apply lookup_cons_same|]. split; [exact Hown|].
+        intros r Hr Er. apply in_purge in Hr as [Hr _]. exfalso. exact (N2 r Hr Er).
+      * simpl. rewrite N.eqb_refl. reflexivity.
+    + split.
+      * split; [apply lookup_cons_same|]. split; [exact Hown|].
+        intros r Hr Er. apply in_app_or in Hr as [Hr|Hr].
+        { apply in_purge in Hr as [Hr _]. exfalso. exact (N2 r Hr Er). }
+        { destruct (Hnew r Hr) as [A [B _]]. auto. }
+      * simpl. rewrite N.eqb_refl. reflexivity.
+  - apply N.eqb_neq in Ech.
+    assert (Hev : forall evs, (forall ce, In ce evs -> fst ce = ch') -> events_on ch evs = []).
+    { intros evs H. apply events_on_other. intros ce Hce E. rewrite (H ce Hce) in E. contradiction. }
+    assert (Hgone : (forall e, In e (st_owners s) -> ow_ch (snd e) = ch -> fst e = key) ->
+                    (forall r, In r (st_retrans s) -> r_ch r = ch -> rkey r = key) ->
+                    forall timers retr, (retr = purge key (st_retrans s) \/ retr = purge key (st_retrans s) ++ new) ->
+                    ~ In ch (refs (set_sched s timers retr owners'))).
+    { intros H1 H2 timers retr Hretr. apply not_in_refs. sstep. split.
+      - intros e [<-|He] Ee; [simpl in Ee; congruence|]. apply in_remove_key in He as [He Hk]. apply Hk. auto.
+      - intros r Hr Er.
+        assert (Hr' : In r (purge key (st_retrans s)) \/ In r new).
+        { destruct Hretr as [->| ->]; [left; exact Hr | apply in_app_or; exact Hr]. }
+        destruct Hr' as [Hr'|Hr'].
+        + apply in_purge in Hr' as [Hr' Hk]. apply Hk. auto.
+        + destruct (Hnew r Hr') as [_ [_ C]]. congruence. }
+    assert (Hkeep : forall k nm' cache' dd, cs = CCurrent k nm' cache' dd -> key <> k ->
+                    forall timers retr, (retr = purge key (st_retrans s) \/ retr = purge key (st_retrans s) ++ new) ->
+                    Rc ch (set_sched s timers retr owners') cs).
+    { intros k nm' cache' dd -> Hk timers retr Hretr. destruct R as [L [C2 C3]]. unfold Rc. sstep. split; [|split].
+      - unfold owners'. rewrite lookup_cons_other by congruence. rewrite lookup_remove_other by congruence. exact L.
+      - intros e [<-|He] Ee; [simpl in Ee; congruence|]. apply in_remove_key in He as [He _]. auto.
+      - intros r Hr Er.
+        assert (Hr' : In r (purge key (st_retrans s)) \/ In r new).
+        { destruct Hretr as [->| ->]; [left; exact Hr | apply in_app_or; exact Hr]. }
+        destruct Hr' as [Hr'|Hr'].
+        + apply in_purge in Hr' as [Hr' _]. auto.
+        + destruct (Hnew r Hr') as [_ [_ C]]. congruence. }
+    assert (Hrhs : snd (match cs with
+                        | CCurrent k _ _ _ => if okey_eqb key k then (CGone, []) else (cs, [])
+                        | _ => (cs, [])
+                        end) = @nil event).
+    { destruct cs as [|k ? ? ?|]; try reflexivity. destruct (okey_eqb key k); reflexivity. }
+    assert (Hstate : forall timers retr, (retr = purge key (st_retrans s) \/ retr = purge key (st_retrans s) ++ new) ->
+               Rc ch (set_sched s timers retr owners')
+                  (fst (match cs with
+                        | CCurrent k _ _ _ => if okey_eqb key k then (CGone, []) else (cs, @nil event)
+                        | _ => (cs, [])
+                        end))).
+    { intros timers retr Hretr. destruct cs as [|k nm' cache' dd|].
+      - simpl in R. apply not_in_refs in R as [N1 N2]. unfold Rc; cbn [fst].
+        apply Hgone; auto; intros x Hx Ex; exfalso; [exact (N1 x Hx Ex) | exact (N2 x Hx Ex)].
+      - destruct (okey_eqb key k) eqn:EK.
+        + apply okey_eqb_eq in EK. subst k. destruct R as [L [C2 C3]]. unfold Rc; cbn [fst].
+          apply Hgone; auto. intros r Hr Er. apply (C3 r Hr Er).
+        + apply okey_eqb_neq in EK. cbn [fst]. eapply Hkeep; eauto.
+      - simpl in R. apply not_in_refs in R as [N1 N2]. unfold Rc; cbn [fst].
+        apply Hgone; auto; intros x Hx Ex; exfalso; [exact (N1 x Hx Ex) | exact (N2 x Hx Ex)]. }
+    destruct cache; sstep; (split; [apply Hstate; auto|]); rewrite Hrhs; apply Hev.
+    + intros ce [<-|[<-|[]]]; reflexivity.
+    + intros ce [<-|[]]. reflexivity.
+Qed.
+
+Lemma rc_stop ch now s cs host nm :
+  Rc ch s cs -> NoDup (map fst (st_owners s)) ->
+  Rc ch (fst (fst (exec_stop host nm s))) (fst (c_cmd now ch (CStop host nm) cs))
+  /\ events_on ch (snd (exec_stop host nm s)) = snd (c_cmd now ch (CStop host nm) cs).
+Proof.
+  intros R ND. unfold exec_stop, c_cmd. set (key := okey_of host nm).
+  assert (Hsub : ~ In ch (refs s) -> forall timers,
+            ~ In ch (refs (set_sched s timers (purge key (st_retrans s)) (remove_key key (st_owners s))))).
+  { intros Hn timers. apply not_in_refs in Hn as [N1 N2]. apply not_in_refs. sstep. split.
+    - intros e He. apply in_remove_key in He as [He _]. auto.
+    - intros r Hr. apply in_purge in Hr as [Hr _]. auto. }
+  assert (Hnoev : ~ In ch (refs s) -> forall o, lookup key (st_owners s) = Some o ->
+            events_on ch [(ow_ch o, EStopped (snd key))] = []).
+  { intros Hn o L. apply not_in_refs in Hn as [N1 _]. apply events_on_other.
+    intros ce [<-|[]]. simpl. apply lookup_In in L. exact (N1 _ L). }
+  destruct cs as [|k nm' cache' dd|].
+  - simpl in R. destruct (lookup key (st_owners s)) as [o|] eqn:L; sstep; cbn [snd].
+    + split; [apply Hsub; exact R | apply Hnoev; auto].
+    + split; [exact R | reflexivity].
+  - destruct R as [Lk [C2 C3]]. destruct (okey_eqb key k) eqn:EK.
+    + apply okey_eqb_eq in EK. subst k. rewrite Lk. sstep. cbn [snd]. split.
+      * unfold Rc. apply not_in_refs. sstep. split.
+        { intros e He Ee. apply in_remove_key in He as [He Hk]. apply Hk. auto. }
+        { intros r Hr Er. apply in_purge in Hr as [Hr Hk]. apply Hk. apply (C3 r Hr Er). }
+      * simpl. rewrite N.eqb_refl. reflexivity.
+    + apply okey_eqb_neq in EK. destruct (lookup key (st_owners s)) as [o|] eqn:L; sstep; cbn [snd].
+      * split.
+        { unfold Rc. sstep. split; [|split].
+          - rewrite lookup_remove_other by congruence. exact Lk.
+          - intros e He. apply in_remove_key in He as [He _]. auto.
+          - intros r Hr. apply in_purge in Hr as [Hr _]. auto. }
+        { apply events_on_other. intros ce [<-|[]]. simpl. intros Eo. apply EK.
+          apply lookup_In in L. apply (C2 _ L Eo). }
+      * split; [split; auto | reflexivity].
+  - simpl in R. destruct (lookup key (st_owners s)) as [o|] eqn:L; sstep; cbn [snd].
+    + split; [apply Hsub; exact R | apply Hnoev; auto].
+    + split; [exact R | reflexivity].
+Qed.
+
+Lemma rc_frame ch s s' cs :
+  st_retrans s' = st_retrans s -> st_owners s' = st_owners s -> Rc ch s cs -> Rc ch s' cs.
+Proof. intros E1 E2 R. unfold Rc, refs in *. rewrite E1, E2. exact R. Qed.
+
+Lemma rc_cmd ch now c s cs :
+  c <> CShutdown -> Rc ch s cs -> NoDup (map fst (st_owners s)) ->
+  (In ch (intro_chans [c]) -> cs = CNotYet) ->
+  Rc ch (fst (fst (exec_cmd now c s))) (fst (c_cmd now ch c cs))
+  /\ events_on ch (snd (exec_cmd now c s)) = snd (c_cmd now ch c cs).
+Proof.
+  intros Hc R ND F. destruct c as [host nm cache timeout ch'|host nm|secs|].
+  - apply rc_start; [exact R|]. intros ->. apply F. simpl. left. reflexivity.
+  - apply rc_stop; assumption.
+  - simpl. split; [|reflexivity]. eapply rc_frame; [| |exact R]; reflexivity.
+  - congruence.
+Qed.
+
+Lemma c_cmd_notyet now ch c :
+  ~ In ch (intro_chans [c]) -> c_cmd now ch c CNotYet = (CNotYet, []).
+Proof.
+  destruct c as [host nm cache timeout ch'|host nm|secs|]; simpl; try reflexivity.
+  intros H. destruct (ch' =? ch) eqn:E; [|reflexivity]. apply N.eqb_eq in E. exfalso. apply H. auto.
+Qed.
+
+Lemma rc_shutdown ch s cs :
+  Rc ch s cs -> NoDup (map fst (st_owners s)) ->
+  events_on ch (snd (exec_shutdown s)) = snd (c_cmd 0 ch CShutdown cs).
+Proof.
+  intros R ND. unfold exec_shutdown. cbn [snd]. rewrite events_on_shutdown.
+  destruct cs as [|k nm' cache' dd|]; simpl.
+  - apply not_in_refs in R as [N1 _]. apply flat_map_nil. intros e He.
+    replace (ow_ch (snd e) =? ch) with false; [reflexivity|]. symmetry. apply N.eqb_neq. auto.
+  - destruct R as [L [C2 _]].
+    rewrite (flat_map_unique (fun e => ow_ch (snd e) =? ch) (fun e => [EStopped (snd (fst e))])
+               (st_owners s) (k, mkOwner ch dd) ND (lookup_In _ _ _ L)).
+    + simpl. rewrite N.eqb_refl. reflexivity.
+    + intros e He Q. apply N.eqb_eq in Q. simpl. auto.
+  - apply not_in_refs in R as [N1 _]. apply flat_map_nil. intros e He.
+    replace (ow_ch (snd e) =? ch) with false; [reflexivity|]. symmetry. apply N.eqb_neq. auto.
+Qed.
+
+Lemma c_cmd_shutdown_now now ch cs : c_cmd now ch CShutdown cs = c_cmd 0 ch CShutdown cs.
+Proof. reflexivity. Qed.
+
+Lemma NoDup_app_inv {A} (a b : list A) :
+  NoDup (a ++ b) -> NoDup b /\ (forall x, In x a -> ~ In x b).
+Proof.
+  induction a as [|y a IH]; simpl; intros H; [split; [exact H | tauto]|].
+  inversion H as [|z zs Hn ND]; subst. destruct (IH ND) as [N1 N2]. split; [exact N1|].
+  intros x [->|Hx]; [|auto]. intros Hb. apply Hn. apply in_or_app. right. exact Hb.
+Qed.
+
+Lemma rc_cmds ch now cmds : forall z s cs s2 p e,
+  now < u64_max -> Mid now z s -> Rc ch s cs ->
+  NoDup (intro_chans cmds) -> (In ch (intro_chans cmds) -> cs = CNotYet) ->
+  run_cmds now cmds s = (s2, p, e) ->
+  events_on ch e = snd (c_cmds now ch cmds cs)
+  /\ (has_shutdown cmds = false -> Rc ch s2 (fst (c_cmds now ch cmds cs)) /\ exists z', Mid now z' s2).
+Proof.
+  induction cmds as [|c rest IH]; intros z s cs s2 p e Hnow M R ND F E; simpl in E.
+  - injection E as <- <- <-. simpl. split; [reflexivity|]. intros _. split; [exact R | eauto].
+  - destruct (exec_cmd now c s) as [[s1 p1] e1] eqn:E1.
+    destruct (run_cmds now rest s1) as [[s2' p2] e2] eqn:E2.
+    assert (Hcase : c = CShutdown \/ (c <> CShutdown /\ (s2', p1 ++ p2, e1 ++ e2) = (s2, p, e))).
+    { destruct c; [right | right | right | left]; try (split; [discriminate | exact E]). reflexivity. }
+    destruct Hcase as [->|[Hc Heq]].
+    + simpl in E1. injection E1 as <- <- <-. injection E as <- <- <-.
+      split; [|discriminate].
+      pose proof (rc_shutdown ch s cs R (mid_own _ _ _ M)) as Hs. unfold exec_shutdown in Hs. cbn [snd] in Hs.
+      rewrite Hs. simpl. destruct cs; reflexivity.
+    + injection Heq as <- <- <-.
+      assert (Hsplit : intro_chans (c :: rest) = intro_chans [c] ++ intro_chans rest).
+      { unfold intro_chans. simpl. rewrite app_nil_r. reflexivity. }
+      rewrite Hsplit in ND, F.
+      assert (F1 : In ch (intro_chans [c]) -> cs = CNotYet).
+      { intros H. apply F. apply in_or_app. left. exact H. }
+      destruct (rc_cmd ch now c s cs Hc R (mid_own _ _ _ M) F1) as [R1 Ev1].
+      rewrite E1 in R1, Ev1. cbn [fst snd] in R1, Ev1.
+      pose proof (mid_cmd now z s c Hnow M Hc) as M1. rewrite E1 in M1. cbn [fst] in M1.
+      destruct (NoDup_app_inv _ _ ND) as [ND' Hdis].
+      assert (F' : In ch (intro_chans rest) -> fst (c_cmd now ch c cs) = CNotYet).
+      { intros H. assert (Hn : ~ In ch (intro_chans [c])).
+        { intros H1. exact (Hdis ch H1 H). }
+        rewrite (F (in_or_app _ _ _ (or_intror H))). rewrite c_cmd_notyet by exact Hn. reflexivity. }
+      destruct (IH _ s1 _ s2' p2 e2 Hnow M1 R1 ND' F' E2) as [Ev2 RH].
+      assert (Hk : c_cmds now ch (c :: rest) cs =
+                   (let '(cs1, e1') := c_cmd now ch c cs in
+                    let '(cs2, e2') := c_cmds now ch rest cs1 in (cs2, e1' ++ e2'))).
+      { destruct c; try reflexivity. congruence. }
+      assert (Hs : has_shutdown (c :: rest) = has_shutdown rest).
+      { unfold has_shutdown. simpl. destruct c; try reflexivity. congruence. }
+      rewrite Hk, Hs. destruct (c_cmd now ch c cs) as [cs1 e1']. cbn [fst snd] in *.
+      destruct (c_cmds now ch rest cs1) as [cs2 e2']. cbn [fst snd] in *.
+      split; [rewrite events_on_app; congruence | exact RH].
+Qed.
+
+Lemma rc_rerun ch now s cs s3 p e :
+  Rc ch s cs -> NoDup (map rkey (st_retrans s)) -> rerun_phase now s = (s3, p, e) ->
+  Rc ch s3 cs
+  /\ (events_on ch e = []
+      \/ exists k nm dd, cs = CCurrent k nm false dd /\ events_on ch e = [EStarted nm]).
+Proof.
+  intros R ND E. unfold rerun_phase in E. injection E as <- <- <-.
+  rewrite events_on_reruns.
+  assert (Hnew : forall r, In r (flat_map (rerun_one now (st_owners s)) (filter (due now) (st_retrans s))) ->
+                 exists r0, In r0 (st_retrans s) /\ rkey r = rkey r0 /\ r_name r = r_name r0 /\ r_ch r = r_ch r0).
+  { intros r Hr. apply in_flat_map in Hr as [r0 [H0 Hr]]. apply filter_In in H0 as [H0 _].
+    exists r0. split; [exact H0|]. apply in_rerun_one in Hr as [-> _]. auto. }
+  destruct cs as [|k nm cache dd|].
+  - simpl in R. apply not_in_refs in R as [N1 N2]. split.
+    + unfold Rc. apply not_in_refs. sstep. split; [exact N1|].
+      intros r Hr. apply in_app_or in Hr as [Hr|Hr].
+      * apply filter_In in Hr as [Hr _]. auto.
+      * destruct (Hnew r Hr) as [r0 [H0 [_ [_ Ec]]]]. rewrite Ec. auto.
+    + left. replace (filter (fun r => r_ch r =? ch) (filter (due now) (st_retrans s))) with (@nil rerun); [reflexivity|].
+      symmetry. apply filter_nil_iff. intros r Hr. apply filter_In in Hr as [Hr _]. apply N.eqb_neq. auto.
+  - destruct R as [L [C2 C3]]. split.
+    + unfold Rc. sstep. split; [exact L|]. split; [exact C2|].
+      intros r Hr Er. apply in_app_or in Hr as [Hr|Hr].
+      * apply filter_In in Hr as [Hr _]. auto.
+      * destruct (Hnew r Hr) as [r0 [H0 [Ek [En Ec]]]]. rewrite Ek, En. apply (C3 r0 H0). congruence.
+    + rewrite filter_comm.
+      destruct (filter_at_most_one rkey (fun r => r_ch r =? ch) k (st_retrans s) ND) as [E|[x E]].
+      * intros r Hr Q. apply N.eqb_eq in Q. apply (C3 r Hr Q).
+      * left. rewrite E. reflexivity.
+      * assert (Hx : In x (filter (fun r => r_ch r =? ch) (st_retrans s))) by (rewrite E; left; reflexivity).
+        apply filter_In in Hx as [Hx Q]. apply N.eqb_eq in Q. destruct (C3 x Hx Q) as [_ [En Ec]]. subst cache.
+        rewrite E. simpl. destruct (due now x); simpl; [right | left; reflexivity].
+        exists k, nm, dd. rewrite En. auto.
+  - simpl in R. apply not_in_refs in R as [N1 N2]. split.
+    + unfold Rc. apply not_in_refs. sstep. split; [exact N1|].
+      intros r Hr. apply in_app_or in Hr as [Hr|Hr].
+      * apply filter_In in Hr as [Hr _]. auto.
+      * destruct (Hnew r Hr) as [r0 [H0 [_ [_ Ec]]]]. rewrite Ec. auto.
+    + left. replace (filter (fun r => r_ch r =? ch) (filter (due now) (st_retrans s))) with (@nil rerun); [reflexivity|].
+      symmetry. apply filter_nil_iff. intros r Hr. apply filter_In in Hr as [Hr _]. apply N.eqb_neq. auto.
+Qed.
+
+Lemma events_on_closed_events ch s cmds s' : events_on ch (closed_events s cmds s') = [].
+Proof. unfold closed_events. apply events_on_closed. Qed.
+
+Lemma c_timeout_notyet now : c_timeout now CNotYet = (CNotYet, []).
+Proof. reflexivity. Qed.
+
+(* one iteration, per channel *)
+Lemma rc_iterate ch s it cs :
+  Inv s -> Rc ch s cs -> i_now it < u64_max ->
+  NoDup (intro_chans (i_cmds it)) -> (In ch (intro_chans (i_cmds it)) -> cs = CNotYet) ->
+  o_hazard (snd (iterate s it)) = false ->
+  c_obs_ok (fst (c_iter ch it cs)) (snd (c_iter ch it cs)) (events_on ch (o_events (snd (iterate s it)))) = true
+  /\ (has_shutdown (i_cmds it) = false -> Rc ch (fst (iterate s it)) (fst (c_iter ch it cs))).
+Proof.
+  intros I R Hnow ND F Hz. rewrite o_hazard_iterate in Hz.
+  destruct (rc_timeout ch (i_now it) s cs R (inv_own s I) Hz) as [R1 Ev1].
+  pose proof (inv_mid s (i_now it) I) as M1.
+  assert (F1 : In ch (intro_chans (i_cmds it)) -> fst (c_timeout (i_now it) cs) = CNotYet).
+  { intros H. rewrite (F H). reflexivity. }
+  unfold iterate, c_iter.
+  destruct (run_cmds (i_now it) (i_cmds it) (timeout_phase (i_now it) s)) as [[s2 p_c] ev_c] eqn:E.
+  destruct (rc_cmds ch (i_now it) (i_cmds it) false _ _ s2 p_c ev_c Hnow M1 R1 ND F1 E) as [Ev2 RH].
+  pose proof (alive_run_cmds (i_now it) (i_cmds it) (timeout_phase (i_now it) s) eq_refl) as A.
+  rewrite E in A. cbn [fst] in A. rewrite A.
+  destruct (c_timeout (i_now it) cs) as [cs1 e1]. cbn [fst snd] in *.
+  destruct (c_cmds (i_now it) ch (i_cmds it) cs1) as [cs2 e2]. cbn [fst snd] in *.
+  destruct (has_shutdown (i_cmds it)) eqn:HS; cbn [negb].
+  - cbn [fst snd o_events]. split; [|discriminate].
+    rewrite !events_on_app, events_on_closed_events, app_nil_r, Ev1, Ev2.
+    unfold c_obs_ok. rewrite evs_eqb_refl. reflexivity.
+  - destruct (RH eq_refl) as [R2 [z' M2]].
+    destruct (rerun_phase (i_now it) s2) as [[s3 p_r] ev_r] eqn:E3.
+    destruct (rc_rerun ch (i_now it) s2 cs2 s3 p_r ev_r R2 (mid_one _ _ _ M2) E3) as [R3 Ev3].
+    cbn [fst snd o_events]. split.
+    + rewrite !events_on_app, events_on_closed_events, app_nil_r, Ev1, Ev2.
+      unfold c_obs_ok. destruct Ev3 as [->|[k [nm [dd [-> ->]]]]].
+      * rewrite app_nil_r, evs_eqb_refl. reflexivity.
+      * rewrite app_assoc, evs_eqb_refl. apply orb_true_r.
+    + intros _. destruct (ip_phase_frame (i_now it) s3) as [_ [F2 [F3 _]]].
+      eapply rc_frame; [exact F2 | exact F3 | exact R3].
+Qed.
+
+Lemma c_iter_notyet ch it :
+  ~ In ch (intro_chans (i_cmds it)) -> fst (c_iter ch it CNotYet) = CNotYet.
+Proof.
+  unfold c_iter. simpl. generalize (i_now it). intros now.
+  induction (i_cmds it) as [|c rest IH]; intros H; [reflexivity|].
+  assert (Hsplit : intro_chans (c :: rest) = intro_chans [c] ++ intro_chans rest).
+  { unfold intro_chans. simpl. rewrite app_nil_r. reflexivity. }
+  rewrite Hsplit in H.
+  assert (H1 : ~ In ch (intro_chans [c])) by (intros X; apply H; apply in_or_app; left; exact X).
+  assert (H2 : ~ In ch (intro_chans rest)) by (intros X; apply H; apply in_or_app; right; exact X).
+  simpl. rewrite c_cmd_notyet by exact H1.
+  specialize (IH H2). destruct (c_cmds now ch rest CNotYet) as [cs2 e2]. simpl in *.
+  destruct c; simpl; try exact IH. reflexivity.
+Qed.
+
+Lemma c_check_run ch : forall h s cs,
+  Inv s -> Rc ch s cs -> in_range h -> NoDup (hist_chans h) -> (In ch (hist_chans h) -> cs = CNotYet) ->
+  no_hazard (run s h) = true -> c_check ch h (run s h) cs = true.
+Proof.
+  induction h as [|it h IH]; intros s cs I R Rg ND F NH; [reflexivity|].
+  destruct (st_alive s) eqn:A; [|rewrite run_dead by exact A; reflexivity].
+  rewrite run_cons in * by exact A. cbn [c_check].
+  simpl in NH. apply andb_true_iff in NH as [NH1 NH2]. apply negb_true_iff in NH1.
+  inversion Rg as [|x xs Rg1 Rg2]; subst.
+  unfold hist_chans in ND, F. cbn [flat_map] in ND, F. fold (hist_chans h) in ND, F.
+  destruct (NoDup_app_inv _ _ ND) as [ND2 Hdis].
+  assert (ND1 : NoDup (intro_chans (i_cmds it))).
+  { clear - ND. induction (intro_chans (i_cmds it)) as [|y l IHl]; [constructor|].
+    simpl in ND. inversion ND as [|z zs Hn ND']; subst. constructor; [|apply IHl; exact ND'].
+    intros H. apply Hn. apply in_or_app. left. exact H. }
+  assert (F1 : In ch (intro_chans (i_cmds it)) -> cs = CNotYet).
+  { intros H. apply F. apply in_or_app. left. exact H. }
+  destruct (rc_iterate ch s it cs I R Rg1 ND1 F1 NH1) as [OK RH].
+  destruct (iterate_shape s it) as [_ [X AL]].
+  destruct (c_iter ch it cs) as [cs' expected] eqn:EC. cbn [fst snd] in *.
+  rewrite OK, X. simpl.
+  destruct (has_shutdown (i_cmds it)) eqn:HS; [reflexivity|].
+  apply IH; auto.
+  - apply iterate_inv; [exact I | right; exact Rg1 | rewrite AL; reflexivity].
+  - intros H. assert (Hn : ~ In ch (intro_chans (i_cmds it))) by (intros H1; exact (Hdis ch H1 H)).
+    assert (cs = CNotYet) by (apply F; apply in_or_app; right; exact H). subst cs.
+    pose proof (c_iter_notyet ch it Hn) as E. rewrite EC in E. exact E.
+Qed.
+
+Lemma rc_init ch t0 : Rc ch (init t0) CNotYet.
+Proof. rewrite init_spec. simpl. tauto. Qed.
+
+Lemma nodupN_NoDup l : nodupN l = true -> NoDup l.
+Proof.
+  induction l as [|x l IH]; simpl; intros H; [constructor|].
+  apply andb_true_iff in H as [H1 H2]. constructor; [|auto].
+  intros Hin. apply negb_true_iff in H1.
+  assert (memN x l = true).
+  { clear - Hin. induction l as [|y l IHl]; [contradiction|]. simpl. destruct Hin as [->|Hin].
+    - rewrite N.eqb_refl. reflexivity.
+    - rewrite IHl by exact Hin. apply orb_true_r. }
+  congruence.
+Qed.
+
+Lemma wf_hist_nodup t0 h : wf_hist t0 h = true -> NoDup (hist_chans h).
+Proof.
+  unfold wf_hist. intros H. apply andb_true_iff in H as [H _]. apply andb_true_iff in H as [_ H].
+  apply nodupN_NoDup. exact H.
+Qed.
+
+(* C13: the conclusion of the theorem in Props/C13.v *)
+Lemma chk_C13_model t0 h :
+  wf_hist t0 h = true -> hazard_free t0 h = true -> chk_C13 t0 h (model_run t0 h) = true.
+Proof.
+  intros W HF. unfold chk_C13, model_run. cbn [o_sent o_events init_out].
+  rewrite shape_ok_run by (rewrite init_spec; reflexivity). rewrite pkts_shaped_run. simpl.
+  apply andb_true_iff. split.
+  - apply forallb_forall. intros ch _.
+    apply (c_check_run ch h (init t0) CNotYet (inv_init t0) (rc_init ch t0)
+             (wf_hist_in_range t0 h W) (wf_hist_nodup t0 h W) (fun _ => eq_refl) HF).
+  - apply forallb_forall. intros k _.
+    apply (k_check_run k h (init t0) None (invh_init t0) (rk_init k t0) HF).
+Qed.
+
+Lemma chk_C13_timely t0 h :
+  wf_hist t0 h = true -> timely t0 h = true -> chk_C13 t0 h (model_run t0 h) = true.
+Proof.
+  intros W T. apply chk_C13_model; [exact W|].
+  apply timely_is_hazard_free; [eapply wf_hist_in_range; exact W | exact T].
+Qed.
+
+(* ================================================================== C12: wake-ups *)
+Lemma chain_dues_due_work k s st :
+  Rk k s st -> forall d, In d (chain_dues st) -> In d (due_work s).
+Proof.
+  intros R d Hd. destruct st as [c|]; [|contradiction]. destruct R as [_ [ch [L P]]].
+  unfold chain_dues in Hd. unfold due_work. apply in_app_or in Hd as [Hd|Hd].
+  - destruct (chain_goes_on c); [|contradiction]. destruct Hd as [<-|[]].
+    apply in_or_app. left.
+    assert (In (chain_rerun k c ch) (pend k (st_retrans s))) by (rewrite P; left; reflexivity).
+    apply filter_In in H as [H _]. apply in_map_iff. exists (chain_rerun k c ch). split; [reflexivity | exact H].
+  - destruct (c_deadline c) as [d'|] eqn:E; [|contradiction]. destruct Hd as [<-|[]].
+    apply in_or_app. right. apply in_or_app. left. apply in_deadlines.
+    exists (wkey_okey k, mkOwner ch (Some d')). split; [apply lookup_In; exact L | reflexivity].
+Qed.
+
+Lemma run_cmds_ip now cmds : forall s,
+  st_next_ip (fst (fst (run_cmds now cmds s))) = st_next_ip s
+  /\ (has_shutdown cmds = false -> st_ip_ival (fst (fst (run_cmds now cmds s))) = ip_cmds cmds (st_ip_ival s)).
+Proof.
+  induction cmds as [|c rest IH]; intros s; simpl; [auto|].
+  destruct (exec_cmd now c s) as [[s1 p1] e1] eqn:E1.
+  assert (H1 : st_next_ip s1 = st_next_ip s
+               /\ st_ip_ival s1 = match c with CSetIp secs => secs * 1000 | _ => st_ip_ival s end).
+  { destruct c as [host nm cache timeout ch|host nm|secs|]; simpl in E1.
+    - unfold exec_start in E1. destruct cache; injection E1 as <- _ _; auto.
+    - unfold exec_stop in E1. destruct (lookup _ _); injection E1 as <- _ _; auto.
+    - injection E1 as <- _ _. simpl. rewrite ip_check_interval_of_secs_pinned. auto.
+    - injection E1 as <- _ _. auto. }
+  destruct H1 as [N1 V1]. specialize (IH s1).
+  destruct (run_cmds now rest s1) as [[s2 p2] e2]. cbn [fst] in IH. destruct IH as [N2 V2].
+  destruct c; cbn [fst]; unfold has_shutdown in *; simpl;
+    try (split; [congruence | intros HS; rewrite (V2 HS), V1; reflexivity]).
+  split; [exact N1 | discriminate].
+Qed.
+
+Lemma iterate_ip s it :
+  has_shutdown (i_cmds it) = false ->
+  (st_next_ip (fst (iterate s it)), st_ip_ival (fst (iterate s it)))
+  = ip_step (i_now it) (i_cmds it) (st_next_ip s, st_ip_ival s).
+Proof.
+  intros HS. unfold iterate.
+  destruct (run_cmds_ip (i_now it) (i_cmds it) (timeout_phase (i_now it) s)) as [N2 V2].
+  pose proof (alive_run_cmds (i_now it) (i_cmds it) (timeout_phase (i_now it) s) eq_refl) as A.
+  destruct (run_cmds (i_now it) (i_cmds it) (timeout_phase (i_now it) s)) as [[s2 p_c] ev_c] eqn:E.
+  cbn [fst] in *. rewrite A, HS. cbn [negb].
+  destruct (rerun_phase (i_now it) s2) as [[s3 p_r] ev_r] eqn:E3. cbn [fst].
+  unfold rerun_phase in E3. injection E3 as <- _ _.
+  specialize (V2 HS). simpl in N2, V2.
+  unfold ip_step, ip_phase. cbn [fst snd]. unfold set_sched. cbn [st_ip_ival st_next_ip].
+  unfold ip_check_disabled, ip_check_unarmed, ip_check_due, ip_check_rearm_time, ip_check_next_time.
+  rewrite N2, V2.
+  destruct (ip_cmds (i_cmds it) (st_ip_ival s) =? 0); [reflexivity|].
+  destruct (st_next_ip s =? 0); [reflexivity|].
+  destruct (st_next_ip s <=? i_now it); reflexivity.
+Qed.
+
+Definition Rks (ks : list wkey) (s : state) (sts : list kstate) : Prop :=
+  Forall2 (fun k st => Rk k s st) ks sts.
+
+Lemma wake_covers_ok s dues :
+  Inv s -> (forall d, In d dues -> In d (due_work s)) ->
+  wake_covers (min_list (st_timers s)) dues = true.
+Proof.
+  intros I H. unfold wake_covers. destruct (min_list (st_timers s)) as [w|] eqn:E.
+  - apply forallb_forall. intros d Hd. apply N.leb_le.
+    eapply min_list_le; [exact E|]. apply due_work_has_timer; auto.
+  - destruct dues as [|d dues]; [reflexivity|]. exfalso.
+    pose proof (due_work_has_timer s I d (H d (or_introl eq_refl))) as Ht.
+    apply min_list_None in E. rewrite E in Ht. contradiction.
+Qed.
+
+Lemma o_wake_iterate s it :
+  has_shutdown (i_cmds it) = false -> o_wake (snd (iterate s it)) = min_list (st_timers (fst (iterate s it))).
+Proof.
+  intros HS. unfold iterate.
+  pose proof (alive_run_cmds (i_now it) (i_cmds it) (timeout_phase (i_now it) s) eq_refl) as A.
+  destruct (run_cmds (i_now it) (i_cmds it) (timeout_phase (i_now it) s)) as [[s2 p_c] ev_c].
+  cbn [fst] in A. rewrite A, HS. cbn [negb].
+  destruct (rerun_phase (i_now it) s2) as [[s3 p_r] ev_r]. reflexivity.
+Qed.
+
+Lemma w_check_run ks : forall h s sts,
+  Inv s -> InvH s -> Rks ks s sts -> in_range h -> no_hazard (run s h) = true ->
+  w_check ks h (run s h) sts (st_next_ip s, st_ip_ival s) = true.
+Proof.
+  induction h as [|it h IH]; intros s sts I H RK Rg NH; [reflexivity|].
+  destruct (st_alive s) eqn:A; [|rewrite run_dead by exact A; reflexivity].
+  rewrite run_cons in * by exact A. cbn [w_check].
+  simpl in NH. apply andb_true_iff in NH as [NH1 NH2]. apply negb_true_iff in NH1.
+  inversion Rg as [|x xs Rg1 Rg2]; subst.
+  destruct (iterate_shape s it) as [_ [X AL]]. rewrite X.
+  destruct (has_shutdown (i_cmds it)) eqn:HS; [reflexivity|].
+  assert (AL' : st_alive (fst (iterate s it)) = true) by exact AL.
+  pose proof (iterate_inv s it I (or_intror Rg1) AL') as I'.
+  pose proof (invh_iterate s it H NH1 HS) as H'.
+  assert (RK' : Rks ks (fst (iterate s it)) (k_states ks it sts)).
+  { clear - RK H NH1 HS. induction RK as [|k st ks sts R RK IHk]; simpl; [constructor|].
+    constructor; [|exact IHk].
+    destruct (rk_iterate k s it st H R NH1) as [_ [_ [_ [_ RH]]]]. apply RH. exact HS. }
+  rewrite <- (iterate_ip s it HS). cbn [fst snd].
+  rewrite (o_wake_iterate s it HS).
+  apply andb_true_iff. split; [apply andb_true_iff; split|].
+  - apply wake_covers_ok; [exact I'|]. intros d Hd. apply in_app_or in Hd as [Hd|Hd].
+    + apply in_flat_map in Hd as [st [Hst Hd]].
+      clear - RK' Hst Hd. induction RK' as [|k st' ks sts' R RK IHk]; [contradiction|].
+      destruct Hst as [->|Hst]; [eapply chain_dues_due_work; eassumption | auto].
+    + unfold due_work. apply in_or_app. right. apply in_or_app. right.
+      unfold ip_check_disabled. destruct (st_ip_ival (fst (iterate s it)) =? 0); exact Hd.
+  - unfold moves_on. rewrite <- (o_wake_iterate s it HS).
+    destruct (o_wake (snd (iterate s it))) as [w|] eqn:Ew; [|reflexivity].
+    destruct (iterate_wake s it I (or_intror Rg1) w Ew) as [Hl|[Hzt ->]].
+    + apply N.ltb_lt in Hl. rewrite Hl. reflexivity.
+    + rewrite N.eqb_refl, Hzt. apply orb_true_r.
+  - apply IH; auto.
+Qed.
+
+Lemma rks_init ks t0 : Rks ks (init t0) (map (fun _ => None) ks).
+Proof. induction ks as [|k ks IH]; simpl; constructor; [apply rk_init | exact IH]. Qed.
+
+Lemma chk_C12_model t0 h :
+  wf_hist t0 h = true -> hazard_free t0 h = true -> chk_C12 t0 h (model_run t0 h) = true.
+Proof.
+  intros W HF. unfold chk_C12, model_run.
+  rewrite shape_ok_run by (rewrite init_spec; reflexivity).
+  assert (E0 : o_wake (init_out t0) = Some (t0 + 5000)) by reflexivity.
+  rewrite E0. cbn [wake_covers moves_on forallb].
+  rewrite N.leb_refl. replace (t0 <? t0 + 5000) with true by (symmetry; apply N.ltb_lt; lia).
+  cbn [andb orb].
+  change (t0 + 5000, 5000) with (st_next_ip (init t0), st_ip_ival (init t0)).
+  apply w_check_run.
+  - apply inv_init.
+  - apply invh_init.
+  - apply rks_init.
+  - eapply wf_hist_in_range. exact W.
+  - exact HF.
+Qed.
+
+Lemma chk_C12_timely t0 h :
+  wf_hist t0 h = true -> timely t0 h = true -> chk_C12 t0 h (model_run t0 h) = true.
+Proof.
+  intros W T. apply chk_C12_model; [exact W|].
+  apply timely_is_hazard_free; [eapply wf_hist_in_range; exact W | exact T].
+Qed.
+
+(* state-level statements over ALL well-formed histories (no hazard hypothesis) *)
+Lemma wake_covers_work_all t0 h :
+  wf_hist t0 h = true -> st_alive (final (init t0) h) = true ->
+  forall d, In d (due_work (final (init t0) h)) ->
+  In d (st_timers (final (init t0) h))
+  /\ exists w, min_list (st_timers (final (init t0) h)) = Some w /\ w <= d.
+Proof.
+  intros W A d Hd. pose proof (reachable_inv t0 h (wf_hist_in_range t0 h W) A) as I.
+  split; [apply due_work_has_timer; assumption | apply wake_covers_state; assumption].
+Qed.
+
+Lemma no_spin_all t0 h it :
+  wf_hist t0 (h ++ [it]) = true -> st_alive (final (init t0) h) = true ->
+  forall w, o_wake (snd (iterate (final (init t0) h) it)) = Some w ->
+  i_now it < w \/ (zero_timeout (i_cmds it) = true /\ w = i_now it).
+Proof.
+  intros W A. pose proof (wf_hist_in_range _ _ W) as Rg. apply Forall_app in Rg as [R1 R2].
+  inversion R2 as [|x xs Rt _]; subst.
+  apply iterate_wake; [apply reachable_inv; assumption | right; exact Rt].
+Qed.
+
+(* ================================================================== direct state-level facts for C13 *)
+(* after StopBrowse ty / StopResolveHostname h the state holds no retransmission and no listener
+   for that search; for host names the key is the lower-cased name, so any spelling stops it *)
+Lemma stop_clears s host nm :
+  InvH s ->
+  let s' := fst (fst (exec_stop host nm s)) in
+  lookup (okey_of host nm) (st_owners s') = None
+  /\ forall r, In r (st_retrans s') -> rkey r <> okey_of host nm.
+Proof.
+  intros H. unfold exec_stop. destruct (lookup (okey_of host nm) (st_owners s)) as [o|] eqn:L; sstep.
+  - split; [apply lookup_remove_same|]. intros r Hr. apply in_purge in Hr as [_ Hr]. exact Hr.
+  - split; [exact L|]. intros r Hr E. destruct (H r Hr) as [o [L' _]]. rewrite E, L in L'. discriminate.
+Qed.
+
+Lemma stop_any_spelling h1 h2 : lower h1 = lower h2 -> okey_of true h1 = okey_of true h2.
+Proof. intros E. unfold okey_of. rewrite E. reflexivity. Qed.
+
+(* a cache-only browse sends nothing and queues nothing *)
+Lemma cache_browse_silent now ty ch s :
+  snd (fst (exec_start now false ty true None ch s)) = []
+  /\ forall r, In r (st_retrans (fst (fst (exec_start now false ty true None ch s)))) -> In r (st_retrans s).
+Proof.
+  unfold exec_start. sstep. split; [reflexivity|]. intros r Hr. apply in_purge in Hr as [Hr _]. exact Hr.
+Qed.
+
+(* shutdown: every search is told SearchStopped, nothing remains queued *)
+Lemma shutdown_clears s :
+  st_retrans (fst (fst (exec_shutdown s))) = [] /\ st_owners (fst (fst (exec_shutdown s))) = []
+  /\ snd (exec_shutdown s) = map (fun e => (ow_ch (snd e), EStopped (snd (fst e)))) (st_owners s).
+Proof. unfold exec_shutdown. simpl. auto. Qed.
+
+(* the deadline path: in a hazard-free iteration no retransmission of a timed-out search survives *)
+Lemma timeout_clears now s e r :
+  hazard now (st_owners s) (st_retrans s) = false ->
+  In e (st_owners s) -> expired now e = true -> In r (st_retrans s) -> rkey r <> fst e.
+Proof. intros. eapply hazard_false; eassumption. Qed.
+
+Lemma no_spin_idle t0 h now :
+  wf_hist t0 (h ++ [mkIter now []]) = true -> st_alive (final (init t0) h) = true ->
+  forall w, o_wake (snd (iterate (final (init t0) h) (mkIter now []))) = Some w -> now < w.
+Proof.
+  intros W A w Hw. destruct (no_spin_all t0 h (mkIter now []) W A w Hw) as [H|[H _]]; [exact H|].
+  discriminate.
+Qed.
